@@ -25,7 +25,8 @@ Variable orc : nat -> nat -> cres.
 Variable lname pname : nat -> Z.
 
 Notation accept := (Model.accept orc lname pname).
-Notation serviceConnect := (Model.serviceConnect orc lname pname).
+Notation serviceConnect := (Model.sc_core orc lname pname).   (* serviceConnect after its cut-off branch *)
+Notation accept_raises := (Model.accept_raises orc).
 Notation patron_service := (Model.patron_service orc lname pname).
 Notation stack_service := (Model.stack_service orc lname pname).
 Notation service := (Model.service orc lname pname).
@@ -51,8 +52,13 @@ Lemma accept_spec c sid : cs (sock0 c) = Some sid ->
              | KConn => set_accepted lname pname c2 sid
              | KReopen => reopen c2
              | KWait => c2
+             | KRaise => c2
              end.
 Proof. intros H. unfold Model.accept. fold (sock0 c). rewrite H. reflexivity. Qed.
+
+Lemma raises_spec c sid : cs (sock0 c) = Some sid ->
+  accept_raises c = match classify (orc sid (att (sock0 c))) with KRaise => true | _ => false end.
+Proof. intros H. unfold Model.accept_raises. fold (sock0 c). rewrite H. reflexivity. Qed.
 
 Lemma sc_spec c sid : accepted c = false -> cs (sock0 c) = Some sid ->
   let r := orc sid (att (sock0 c)) in
@@ -62,12 +68,45 @@ Lemma sc_spec c sid : accepted c = false -> cs (sock0 c) = Some sid ->
   | KConn => set_accepted lname pname c2 sid
   | KReopen => if reconn c && timed_out c then restart (reopen (reopen c2)) else reopen c2
   | KWait => if reconn c && timed_out c then restart (reopen c2) else c2
+  | KRaise => c2
   end.
 Proof.
-  intros Ha Hs. unfold Model.serviceConnect. rewrite Ha. cbv zeta.
-  rewrite (accept_spec c sid Hs). cbv zeta.
+  intros Ha Hs. unfold Model.sc_core. rewrite Ha. cbv zeta.
+  rewrite (accept_spec c sid Hs), (raises_spec c sid Hs). cbv zeta.
   destruct (classify (orc sid (att (sock0 c)))); unfold sock0 in *;
     destruct c as [cs0 ? ? ? ? ? ? ? ? ? ? ? ? ? ?]; destruct cs0; prims; subst; reflexivity.
+Qed.
+
+(* the three drivers in terms of sc_core *)
+Definition patron_old (c : client) : client :=
+  let c1 := cutoff_branch c in if accepted c1 then c1 else serviceConnect c1.
+Definition stack_old (c : client) : client :=
+  if cutoff c then (if reconn c && timed_out c then restart (reopen c) else c)
+  else if accepted c then c
+  else let c1 := serviceConnect c in if accepted c1 then set_lha c1 else c1.
+
+Lemma branch_idem c : cutoff_branch (cutoff_branch c) = cutoff_branch c.
+Proof.
+  unfold Model.cutoff_branch at 2 3. destruct (cutoff c && reconn c && timed_out c) eqn:E.
+  - unfold Model.cutoff_branch. destruct c as [cs0 ? ? ? ? ? ? ? ? ? ? ? ? ? ?]; destruct cs0; prims; reflexivity.
+  - unfold Model.cutoff_branch. rewrite E. reflexivity.
+Qed.
+
+Lemma branch_nocut c : cutoff c = false -> cutoff_branch c = c.
+Proof. intros H. unfold Model.cutoff_branch. rewrite H. reflexivity. Qed.
+
+Lemma sc_core_accepted c : accepted c = true -> serviceConnect c = c.
+Proof. intros H. unfold Model.sc_core. rewrite H. reflexivity. Qed.
+
+Lemma service_old d c :
+  service d c = match d with Stack => stack_old c | _ => patron_old c end.
+Proof.
+  destruct d; cbv [Model.service].
+  - unfold Model.serviceConnect, patron_old. cbv zeta.
+    destruct (accepted (cutoff_branch c)) eqn:E; [apply sc_core_accepted, E | reflexivity].
+  - unfold Model.patron_service, Model.serviceConnect, patron_old. cbv zeta. rewrite branch_idem. reflexivity.
+  - unfold Model.stack_service, Model.serviceConnect, stack_old.
+    destruct (cutoff c) eqn:E; [reflexivity|]. rewrite (branch_nocut c E). reflexivity.
 Qed.
 
 (* ------------------------------------------------------------------------------------- *)
@@ -80,7 +119,7 @@ Definition addr_inv (c : client) : Prop :=
 Lemma addr_sc c : addr_inv c -> addr_inv (serviceConnect c).
 Proof.
   intros H. destruct (accepted c) eqn:Ha.
-  - unfold Model.serviceConnect. rewrite Ha. exact H.
+  - unfold Model.sc_core. rewrite Ha. exact H.
   - destruct (sock0_some c) as [sid Hs]. rewrite (sc_spec c sid Ha Hs). cbv zeta.
     destruct (classify _); [| destruct (reconn c && timed_out c) ..];
       unfold addr_inv, sock0 in *; destruct c as [cs0 ? ? ? ? ? ? ? ? ? ? ? ? ? ?];
@@ -103,14 +142,15 @@ Lemma addr_step d c t : addr_inv c -> addr_inv (step d c t).
 Proof.
   intros H. unfold Model.step. cbv zeta. pose proof (addr_pre c t H) as H2.
   set (c2 := if snd t then env_cut (advance c (fst t)) else advance c (fst t)) in *.
-  clearbody c2. clear H. destruct d; cbv [Model.service].
-  - apply addr_sc, H2.
-  - unfold Model.patron_service. cbv zeta.
+  clearbody c2. clear H. rewrite service_old.
+  assert (HP : addr_inv (patron_old c2)).
+  { unfold patron_old, Model.cutoff_branch. cbv zeta.
     destruct (cutoff c2 && reconn c2 && timed_out c2).
     + pose proof (addr_restart_reopen c2) as H1.
       destruct (accepted (restart (reopen c2))); [exact H1 | apply addr_sc, H1].
-    + destruct (accepted c2); [exact H2 | apply addr_sc, H2].
-  - unfold Model.stack_service. destruct (cutoff c2).
+    + destruct (accepted c2); [exact H2 | apply addr_sc, H2]. }
+  destruct d; [exact HP | exact HP |].
+  - unfold stack_old. destruct (cutoff c2).
     + destruct (reconn c2 && timed_out c2); [apply addr_restart_reopen | exact H2].
     + destruct (accepted c2) eqn:Ha; [exact H2|]. cbv zeta.
       pose proof (addr_sc c2 H2) as H3.
@@ -133,7 +173,7 @@ Proof.
   { unfold lha_inv in *. destruct c as [cs0 ? ? ? acc cu ? ? ? ? ? ? ? ? ?].
     destruct (snd t); [destruct acc, cu|]; prims; cbn; exact H. }
   set (c2 := if snd t then env_cut (advance c (fst t)) else advance c (fst t)) in *.
-  clearbody c2. clear H. cbv [Model.service]. unfold Model.stack_service. destruct (cutoff c2).
+  clearbody c2. clear H. rewrite service_old. unfold stack_old. destruct (cutoff c2).
   - destruct (reconn c2 && timed_out c2); [|exact H2].
     unfold lha_inv. destruct c2 as [cs0 ? ? ? ? ? ? ? ? ? ? ? ? ? ?]; destruct cs0; prims; discriminate.
   - destruct (accepted c2) eqn:Ha; [exact H2|]. cbv zeta.
@@ -155,13 +195,12 @@ Definition frozen (c c' : client) : Prop :=
   cutoff c' = cutoff c /\ opened c' = opened c /\ reconn c' = reconn c /\ ca c' = ca c /\ ha c' = ha c.
 
 Lemma service_stale d c :
-  (reconn c = false \/ d = Bare) -> accepted c = true -> cutoff c = true -> service d c = c.
+  reconn c = false -> accepted c = true -> cutoff c = true -> service d c = c.
 Proof.
-  intros Hr Ha Hc. destruct d; cbv [Model.service].
-  - unfold Model.serviceConnect. rewrite Ha. reflexivity.
-  - destruct Hr as [Hr|Hr]; [|discriminate]. unfold Model.patron_service. rewrite Hc, Hr. cbn.
-    rewrite Ha. reflexivity.
-  - destruct Hr as [Hr|Hr]; [|discriminate]. unfold Model.stack_service. rewrite Hc, Hr. reflexivity.
+  intros Hr Ha Hc. rewrite service_old. destruct d.
+  - unfold patron_old, Model.cutoff_branch. rewrite Hc, Hr. cbn. rewrite Ha. reflexivity.
+  - unfold patron_old, Model.cutoff_branch. rewrite Hc, Hr. cbn. rewrite Ha. reflexivity.
+  - unfold stack_old. rewrite Hc, Hr. reflexivity.
 Qed.
 
 Lemma pre_stale c (t : tick) : accepted c = true -> cutoff c = true ->
@@ -173,13 +212,12 @@ Proof.
 Qed.
 
 Lemma stale_step d c t :
-  (reconn c = false \/ d = Bare) -> accepted c = true -> cutoff c = true -> frozen c (step d c t).
+  reconn c = false -> accepted c = true -> cutoff c = true -> frozen c (step d c t).
 Proof.
   intros Hr Ha Hc. unfold Model.step. cbv zeta.
   destruct (pre_stale c t Ha Hc) as (F & Ha2 & Hc2).
   set (c2 := if snd t then env_cut (advance c (fst t)) else advance c (fst t)) in *. clearbody c2.
   rewrite service_stale; auto.
-  destruct Hr as [Hr|Hr]; [left|right; exact Hr].
   destruct F as (F1 & F2 & F3 & F4 & F5 & F6 & F7 & F8 & F9). congruence.
 Qed.
 
@@ -195,25 +233,6 @@ Proof.
   - rewrite run_cons. pose proof (nonreconn_step d c t Hr Ha Hc) as F.
     destruct F as (F1 & F2 & F3 & F4 & F5 & F6 & F7 & F8 & F9).
     specialize (IH (step d c t)). rewrite F7, F4, F5 in IH. specialize (IH Hr Ha Hc).
-    destruct IH as (G1 & G2 & G3 & G4 & G5 & G6 & G7 & G8 & G9).
-    unfold frozen. repeat split; congruence.
-Qed.
-
-(* the same freeze holds for the BARE client even when it is reconnectable: serviceConnect
-   alone never looks at .cutoff (loss of an established connection is handled by the users
-   of the client, Patron.serviceAll and TcpClientStack.serviceConnect) *)
-Lemma bare_stale_step c t :
-  accepted c = true -> cutoff c = true -> frozen c (step Bare c t).
-Proof. intros. apply stale_step; auto. Qed.
-
-Lemma bare_stale_run ts : forall c,
-  accepted c = true -> cutoff c = true -> frozen c (run Bare c ts).
-Proof.
-  induction ts as [|t ts IH]; intros c Ha Hc.
-  - unfold frozen. cbn. repeat split; reflexivity.
-  - rewrite run_cons. pose proof (bare_stale_step c t Ha Hc) as F.
-    destruct F as (F1 & F2 & F3 & F4 & F5 & F6 & F7 & F8 & F9).
-    specialize (IH (step Bare c t)). rewrite F4, F5 in IH. specialize (IH Ha Hc).
     destruct IH as (G1 & G2 & G3 & G4 & G5 & G6 & G7 & G8 & G9).
     unfold frozen. repeat split; congruence.
 Qed.
